@@ -116,6 +116,8 @@ def r1(ctx):
 def bound_fits(fn, a, decl, tgt_w, ivenv):
     """does comparison atom a = ('cmp', l, op, r) bound variable decl? returns 'upper'/'lower'/None"""
     l, op, r = a[1], a[2], a[3]
+    if isinstance(r, tuple) or isinstance(l, tuple):
+        return None
     ld, rd = fn.ref_decl(l), fn.ref_decl(r)
     if ld == decl and rd != decl:
         var_left, other = True, r
